@@ -97,11 +97,26 @@ def check(tier):
 
 
 def replay(payload):
+    """the stored input is run again in a worker process"""
+    import subprocess
     run = Run("C08", "quick")
     case = payload.get("case") or {}
     text = case.get("text") or ""
-    p = run.path("replay_input.asn")
-    open(p, "w").write(text)
-    print(f"input written to {p} ({len(text)} bytes); what: {case.get('what')}; backend: {case.get('backend')}")
-    print("event:", json.dumps({k: v for k, v in (payload.get("event") or {}).items() if k not in ("text", "asn")}))
+    job = json.dumps({"id": 0, "text": text, "backend": case.get("backend") or "rasn"})
+    try:
+        p = subprocess.run([core.VH, "c08worker"], input=job + "\n", env=core.harness_env(), stdout=subprocess.PIPE, stderr=subprocess.DEVNULL, text=True, timeout=120)
+        done = [l for l in p.stdout.splitlines() if l.startswith("DONE ")]
+        res = json.loads(done[0][5:])["res"] if done else {"outcome": "aborted", "at": "compile", "site": f"worker exit status {p.returncode}"}
+    except subprocess.TimeoutExpired:
+        res = {"outcome": "hung", "at": "compile", "site": "no return within 120 s"}
+    print(f"input: {len(text)} bytes, backend {case.get('backend')}, {case.get('what')}")
+    print("outcome:", json.dumps(res))
+    if res["outcome"] in ("ok", "err") and res.get("at", "") == "":
+        return 0
+    keys = known_by_key(run)
+    dev = keys.get(("site", res.get("site")), "") if res["outcome"] == "panicked" else ""
+    if dev:
+        print("KNOWN-FINDING: property=C08", dev)
+        return 0
+    print("MISMATCH: compilation or error rendering does not return normally")
     return 1
